@@ -81,7 +81,7 @@ pub fn expected_probes(name: &str) -> Vec<&'static str> {
         "c15-write" => vec!["hard_error_with_os_code", "eintr", "short_write", "io_error", "write_zero", "short_write_1_byte", "hard_error_placements", "write_zero_placements", "eintr_placements", "one_byte_write_placements"],
         "c15-compositions" => vec!["compositions_enumerated"],
         "c16-serial-exchange" => vec!["data_chunk_with_borrowed_payload", "eintr", "short_write", "io_error", "timeout", "eof", "write_zero", "unknown_that_looks_like_hello", "fault_at_each_op_index", "long_conversation_with_failing_replies", "reply_with_a_non_hex_character"],
-        "c20-port-setup" => vec!["prior_framing_value_unreported", "transient_refusal", "configured_twice", "prior_speed_unreported"],
+        "c20-port-setup" => vec!["port_of_two_halves_configured", "prior_framing_value_unreported", "transient_refusal", "configured_twice", "prior_speed_unreported"],
         "c18-pacing" => vec!["caller_thread_holds_an_unpark_token", "chunk_followed_by_paced_write", "in_progress_report_paced", "bus_recreated_on_same_port", "long_run_of_in_progress_reports", "long_run_of_successful_transfer_reports", "noise_line_before_the_reply", "payload_of_one_repeated_byte"],
         "c10-adversarial-bus" => vec!["bus_error", "bus_error_with_os_code", "near_miss_frame_as_reply", "foreign_address_equal_to_a_number_of_the_conversation", "caller_keeps_no_handle_on_the_bus", "conversation_ge_10_turns", "polled_3_or_more_times", "foreign_reply_at:Hello1", "foreign_reply_at:ResultQuery", "foreign_reply_at:Poll", "foreign_reply_at:RequestAck", "foreign_reply_at:CinHello", "foreign_reply_at:FinalQuery"],
         "c11-adversarial-bus" => vec![
